@@ -12,59 +12,95 @@ import (
 // through the boundary of a private helper.
 var Current *Prog
 
-// privateCallSite: fn is an unexported function/method, a closure or a generic
-// instantiation that is called from exactly one static call site, is not used as a value
-// and is not reachable through an interface: then its parameters ARE the arguments of
-// that site.
-func privateCallSite(fn *ssa.Function) ssa.CallInstruction {
+// ctxRoot is the root function of the rule being evaluated (set by the Deep primitives):
+// a helper shared by several callers has exactly one call site INSIDE the body of that
+// root more often than it has one in the whole program.
+var ctxRoot *ssa.Function
+
+// WithRoot sets the context root and returns the function that restores the previous one.
+func WithRoot(fn *ssa.Function) func() {
+	old := ctxRoot
+	ctxRoot = fn
+	return func() { ctxRoot = old }
+}
+
+// helperOK: cal can be regarded as part of the body of its callers: an unexported
+// function/method (or closure, or instantiation) of a repo package that is not used as a
+// value and cannot be reached through an interface.
+func helperOK(cal *ssa.Function) bool {
 	p := Current
-	if p == nil || fn == nil || fn.Blocks == nil {
-		return nil
+	if p == nil || cal == nil || cal.Blocks == nil {
+		return false
 	}
-	if v, ok := p.uniqueSite[fn]; ok {
+	if v, ok := p.helperOK[cal]; ok {
 		return v
 	}
-	var res ssa.CallInstruction
-	defer func() { p.uniqueSite[fn] = res }()
-	if fn.Parent() == nil && (fn.Object() == nil || fn.Object().Exported()) {
-		return nil
+	res := false
+	defer func() { p.helperOK[cal] = res }()
+	if cal.Parent() == nil && (cal.Object() == nil || cal.Object().Exported()) {
+		return false
 	}
-	// used as a value?
-	if fn.Referrers() != nil {
-		for _, r := range *fn.Referrers() {
+	if cal.Referrers() != nil {
+		for _, r := range *cal.Referrers() {
 			if _, ok := r.(ssa.CallInstruction); !ok {
-				return nil
+				return false
 			}
 		}
 	}
-	sites := p.callers[fn]
-	if len(sites) != 1 {
-		return nil
-	}
-	if _, isGo := sites[0].(*ssa.Go); isGo {
-		return nil
-	}
-	if _, isDefer := sites[0].(*ssa.Defer); isDefer {
-		return nil
-	}
-	// a method that implements an interface used in the program may be invoked dynamically
-	if fn.Signature.Recv() != nil {
-		for _, ci := range p.invokers[fn.Name()] {
+	if cal.Signature.Recv() != nil {
+		for _, ci := range p.invokers[cal.Name()] {
 			it, ok := ci.Common().Value.Type().Underlying().(*types.Interface)
 			if !ok {
 				continue
 			}
-			rt := fn.Signature.Recv().Type()
+			rt := cal.Signature.Recv().Type()
 			if types.Implements(rt, it) || types.Implements(types.NewPointer(deref(rt)), it) {
-				return nil
+				return false
 			}
 		}
 	}
-	if sites[0].Parent() == fn {
-		return nil // recursion
+	res = true
+	return true
+}
+
+// privateCallSite: the call site through which fn's parameters are bound: the only static
+// call site inside the body of the context root when there is one, else the only static
+// call site in the program. nil when fn is not a helper in that sense.
+func privateCallSite(fn *ssa.Function) ssa.CallInstruction {
+	p := Current
+	if p == nil || !helperOK(fn) {
+		return nil
 	}
-	res = sites[0]
-	return res
+	pick := func(sites []ssa.CallInstruction) ssa.CallInstruction {
+		if len(sites) != 1 {
+			return nil
+		}
+		if _, isGo := sites[0].(*ssa.Go); isGo {
+			return nil
+		}
+		if _, isDefer := sites[0].(*ssa.Defer); isDefer {
+			return nil
+		}
+		if sites[0].Parent() == fn {
+			return nil // recursion
+		}
+		return sites[0]
+	}
+	if ctxRoot != nil && ctxRoot != fn {
+		set := Reach(ctxRoot)
+		if inSet(set, fn) {
+			var in []ssa.CallInstruction
+			for _, cs := range p.callers[fn] {
+				if inSet(set, cs.Parent()) && cs.Parent() != fn {
+					in = append(in, cs)
+				}
+			}
+			if cs := pick(in); cs != nil {
+				return cs
+			}
+		}
+	}
+	return pick(p.callers[fn])
 }
 
 // resolveOnce maps a value to the value it is across a private boundary: a parameter of a
@@ -214,12 +250,17 @@ func Resolve(v ssa.Value) ssa.Value {
 	return Strip(v)
 }
 
-// Reach returns fn, its closures, and — transitively, to depth 3 — the private helpers it
-// calls (unexported functions of the same package, or generic instantiations, whose only
-// call site is inside the set): "the body of fn as a maintainer may have split it".
+// Reach returns fn, its closures, and — transitively, to depth 3 — the helpers it calls
+// (unexported functions and methods of the same package that are not used as values and
+// not reachable through an interface): "the body of fn as a maintainer may have split it".
 func Reach(fn *ssa.Function) []*ssa.Function {
 	if fn == nil {
 		return nil
+	}
+	if Current != nil {
+		if v, ok := Current.reach[fn]; ok {
+			return v
+		}
 	}
 	seen := map[*ssa.Function]bool{}
 	var out []*ssa.Function
@@ -241,21 +282,85 @@ func Reach(fn *ssa.Function) []*ssa.Function {
 			if !ok {
 				return
 			}
-			cal := ci.Common().StaticCallee()
-			if cal == nil || cal.Blocks == nil || seen[cal] {
+			if _, isGo := in.(*ssa.Go); isGo {
 				return
 			}
-			if privateCallSite(cal) == ci {
+			cal := ci.Common().StaticCallee()
+			if cal == nil || cal.Blocks == nil || seen[cal] || cal == fn {
+				return
+			}
+			if !samePkg(cal, fn) || !helperOK(cal) {
+				return
+			}
+			if globalUniqueSite(cal) == ci || smallSharedHelper(cal) {
 				visit(cal, d+1)
 			}
 		})
 	}
 	visit(fn, 0)
+	if Current != nil {
+		Current.reach[fn] = out
+	}
 	return out
+}
+
+// globalUniqueSite: the only static call site of cal in the program (nil if several).
+func globalUniqueSite(cal *ssa.Function) ssa.CallInstruction {
+	sites := Current.callers[cal]
+	if len(sites) != 1 || sites[0].Parent() == cal {
+		return nil
+	}
+	return sites[0]
+}
+
+// smallSharedHelper: a helper with several call sites is still taken as part of each
+// caller's body when it is small, not recursive, and not itself a function the rule
+// tables look up by name (those are analysed as units of their own).
+func smallSharedHelper(cal *ssa.Function) bool {
+	p := Current
+	if cal.Parent() != nil {
+		return true
+	}
+	n := 0
+	rec := false
+	Instrs(cal, func(in ssa.Instruction) {
+		n++
+		if ci, ok := in.(ssa.CallInstruction); ok && ci.Common().StaticCallee() == cal {
+			rec = true
+		}
+	})
+	if rec || n > 60 {
+		return false
+	}
+	for k := range p.Anchors {
+		if strings.HasSuffix(k, "|"+cal.Name()) {
+			return false
+		}
+	}
+	return true
+}
+
+func samePkg(a, b *ssa.Function) bool {
+	pa, pb := pkgOf(a), pkgOf(b)
+	return pa != nil && pa == pb
+}
+
+func pkgOf(f *ssa.Function) *ssa.Package {
+	for f.Parent() != nil {
+		f = f.Parent()
+	}
+	if f.Pkg != nil {
+		return f.Pkg
+	}
+	if o := f.Origin(); o != nil {
+		return o.Pkg
+	}
+	return nil
 }
 
 // InstrsDeep visits the instructions of Reach(fn).
 func InstrsDeep(fn *ssa.Function, f func(ssa.Instruction)) {
+	defer WithRoot(fn)()
 	for _, g := range Reach(fn) {
 		Instrs(g, f)
 	}
@@ -315,6 +420,7 @@ func callSitesIn(g *ssa.Function, set []*ssa.Function) []ssa.Instruction {
 // unreachable (with the pass edges removed) inside its own function, or else if every call
 // site of that function is guarded in turn, up to root.
 func GateDeep(root *ssa.Function, effects []ssa.Instruction, pass ...Lit) GateResult {
+	defer WithRoot(root)()
 	set := Reach(root)
 	res := GateResult{OK: true, PerLit: make([]int, len(pass))}
 	counted := map[*ssa.Function]bool{}
@@ -405,7 +511,7 @@ func deepB(isB func(ssa.Instruction) bool, depth int) func(ssa.Instruction) bool
 			return false
 		}
 		cal := ci.Common().StaticCallee()
-		if cal == nil || cal.Blocks == nil || privateCallSite(cal) != ci {
+		if cal == nil || cal.Blocks == nil || !helperOK(cal) || cal == x.Parent() {
 			return false
 		}
 		return mustExec(cal, isB, depth)
@@ -416,6 +522,7 @@ func deepB(isB func(ssa.Instruction) bool, depth int) func(ssa.Instruction) bool
 // called after start, and when start lies in a helper of root the obligation continues
 // after each call site of that helper.
 func MustFollowDeep(root *ssa.Function, start Point, isB func(ssa.Instruction) bool, stop func(ssa.Instruction) bool) FollowResult {
+	defer WithRoot(root)()
 	set := Reach(root)
 	var follow func(pt Point, depth int) FollowResult
 	follow = func(pt Point, depth int) FollowResult {
@@ -445,6 +552,7 @@ func MustFollowDeep(root *ssa.Function, start Point, isB func(ssa.Instruction) b
 // executed first — in x's own function, by a private helper called there, or before the
 // call sites of x's function.
 func PrecedesDeep(root *ssa.Function, x ssa.Instruction, isA func(ssa.Instruction) bool) bool {
+	defer WithRoot(root)()
 	set := Reach(root)
 	var prec func(x ssa.Instruction, depth int) bool
 	prec = func(x ssa.Instruction, depth int) bool {
